@@ -145,7 +145,7 @@ func runC02(r *Run) {
 	}
 	bigStart := maxPages >= 700 && t.Chance(1, 3) // start beyond the first checksum block
 	r.Cfg["big_start"] = bigStart
-	lockPageRun := r.Thorough() && pageSize == 65536 && t.Chance(1, 12)
+	lockPageRun := r.Thorough() && pageSize == 65536 && t.Chance(1, 30)
 	faultLast := t.Chance(1, 3)
 	r.Cfg["disk_error_in_last_program"] = faultLast
 	r.Cfg["page_size"], r.Cfg["mode"], r.Cfg["lz4"], r.Cfg["keep_jfd"], r.Cfg["programs"] = pageSize, mode, compress, keepJFD, nprog
